@@ -2,8 +2,8 @@
 //!
 //! The same program as catalogue entry `v_multiset_delta__base`, except that the operator's input
 //! comes out of a `tee()`, which places `multiset_delta()` on the push side of its subgraph.
-//! On the unchanged tree rustc rejects it (E0282 "type annotations needed for `&_`"): the push
-//! realisation in dfir_lang/src/graph/ops/multiset_delta.rs builds `push::filter(|item| { ..
+//! Until /repo commit 142a948fa19 rustc rejected it (E0282 "type annotations needed for `&_`"): the push
+//! realisation in dfir_lang/src/graph/ops/multiset_delta.rs built `push::filter(|item| { ..
 //! item.clone() .. }, output)` and the method call `item.clone()` needs the item type before
 //! it can be inferred from upstream; the pull realisation of the same operator compiles.
 use std::cell::RefCell;
